@@ -844,6 +844,7 @@ impl XmlAttributeValue {
                     Ok(Some(XmlAttributeValue::Char(char_ref)))
                 }
                 parser::Reference::Entity(v) => {
+                    check_entity_reference(v, context, true, &mut vec![])?;
                     let entity = context.entity(v)?;
                     let entity =
                         XmlUnexpandedEntityReference::node(entity, Some(parent_id), context);
@@ -2309,6 +2310,7 @@ impl XmlElement {
                             element.borrow_mut().push_child(reference);
                         }
                         parser::Reference::Entity(v) => {
+                            check_entity_reference(v, context, false, &mut vec![])?;
                             let entity = context.entity(v)?;
                             let entity =
                                 XmlUnexpandedEntityReference::node(entity, element_id, context);
@@ -4241,6 +4243,43 @@ fn entity_value_from_name(name: &str, context: &Context, normalize: bool) -> err
         }
     }
     Ok(parsed)
+}
+
+/// Well-formedness constraints on a general entity reference: the entity and every entity its
+/// value refers to is declared, is not an unparsed entity and does not refer to itself; in an
+/// attribute value it is not an external entity either.
+fn check_entity_reference(
+    name: &str,
+    context: &Context,
+    in_attribute: bool,
+    path: &mut Vec<String>,
+) -> error::Result<()> {
+    if path.iter().any(|v| v == name) {
+        return Err(error::Error::InvalidData(format!("&{};", name)));
+    }
+
+    let entity = context.entity(name)?;
+    let entity = entity.borrow();
+    if entity.notation_name().is_some() || (in_attribute && entity.system_identifier().is_some()) {
+        return Err(error::Error::InvalidData(format!("&{};", name)));
+    }
+
+    path.push(name.to_string());
+    for value in entity.values().unwrap_or_default() {
+        match value {
+            XmlEntityValue::Character(v, 10) => {
+                char_from_char10(v)?;
+            }
+            XmlEntityValue::Character(v, _) => {
+                char_from_char16(v)?;
+            }
+            XmlEntityValue::Entity(v) => check_entity_reference(v, context, in_attribute, path)?,
+            _ => {}
+        }
+    }
+    path.pop();
+
+    Ok(())
 }
 
 fn char_from_char10(value: &str) -> error::Result<char> {
